@@ -128,6 +128,10 @@ pub fn build_actors(plan: &Plan, focus: &Focus, rng: &mut Rng) -> Vec<Box<dyn Ac
             ActorKind::TcpClient => {
                 let c = TcpClient::new(plan, rng, focus, peer, offscope);
                 tuples.push((peer, c.a.clone(), c.sport, c.dport));
+                if !offscope && rng.chance(1, 8) {
+                    let nb = c.neighbour(rng, focus);
+                    actors.push(Box::new(nb));
+                }
                 if !offscope && rng.below(1000) < focus.twin_pm {
                     let recut = rng.chance(2, 3);
                     let readdr = !recut || rng.chance(1, 2);
